@@ -4,3 +4,6 @@ import GoMC.Props.C15
 #print axioms GoMC.Props.C15.C15_reads_do_not_interfere
 #print axioms GoMC.Props.C15.C15_isolation_any_order
 #print axioms GoMC.Props.C15.C15_history
+#print axioms GoMC.Props.C15.C15_history_any_order
+#print axioms GoMC.Props.C15.C15_writes_are_the_write
+#print axioms GoMC.Props.C15.C15_no_crash_image
